@@ -56,6 +56,12 @@ def check(R, F, P, cfg):
                 opt = strip(e[2][0])
                 if "metadata" in fmt(opt) or (opt[0] == "ret" and opt[1] == WCMH):
                     return "present_accessible"
+        if e[0] == "call" and e[1] == WCM + "is_accessible":
+            r_ = strip(e[2][0])
+            while isinstance(r_, tuple) and r_ and r_[0] in ("field", "as", "deref", "ref"):
+                r_ = strip(r_[1])
+            if isinstance(r_, tuple) and r_ and r_[0] == "ret" and r_[1] == WCMH:
+                return "accessible"
         if e[0] == "call" and e[1] == "std::result::Result::<T, E>::unwrap_or" and len(e[2]) == 2 and e[2][1] == ("const", 1):
             inner = strip(e[2][0])
             if inner[0] == "ret" and inner[1] == "state::try_state":
@@ -71,15 +77,25 @@ def check(R, F, P, cfg):
     def atomise(a, tr):
         if a[0] == "bool":
             n = atom_of_expr(a[1])
+            if n == "present_accessible":
+                # one test for both: true fixes both atoms; false is `not (present and accessible)`
+                return ("pred", (lambda g: g["present"] and g["accessible"]) if tr else (lambda g: not (g["present"] and g["accessible"])))
             if n:
                 return (n, tr)
+        if a[0] == "discr" and isinstance(tr, tuple):
+            r_ = strip(a[1])
+            if isinstance(r_, tuple) and r_ and r_[0] == "ret" and r_[1] == WCMH:
+                if tr in (("is", 1), ("not", 0)):
+                    return ("present", True)
+                if tr in (("is", 0), ("not", 1)):
+                    return ("present", False)
         if a[0] == "cmp" and a[1] == "Eq" and getter_of(a[2])[0] == CM + "counter" and a[3] == ("const", 0):
             return ("count_zero", tr)
         return None
-    atoms = ["present_accessible", "count_zero", "dropped", "collector_owned", "dropping_or_unavailable"]
+    atoms = ["present", "accessible", "count_zero", "dropped", "collector_owned", "dropping_or_unavailable"]
 
     def spec(g):
-        alive = g["present_accessible"] and not g["count_zero"] and not g["dropped"] and not (g["collector_owned"] and g["dropping_or_unavailable"])
+        alive = g["present"] and g["accessible"] and not g["count_zero"] and not g["dropped"] and not (g["collector_owned"] and g["dropping_or_unavailable"])
         return "count" if alive else "zero"
 
     def result_of(p, g):
@@ -90,13 +106,15 @@ def check(R, F, P, cfg):
             return "count"
         raise tables.TableMismatch("result %s" % fmt(rv))
     probs = tables.check_table(paths, atomise, spec, result_of, atoms)
-    R.inst("R8.1", "strong_count-table", not probs, "; ".join(probs[:6]) if probs else "%d paths x %d atoms (32 rows): implementation == specification" % (len(paths), len(atoms)), where=sc.span, cfg=cfg)
+    R.inst("R8.1", "strong_count-table", not probs, "; ".join(probs[:6]) if probs else "%d paths x %d atoms (64 rows): implementation == specification" % (len(paths), len(atoms)), where=sc.span, cfg=cfg)
     # deref of the box only under accessible
     derefs = [n for n in S.call_nodes() if n.ci["k"] == "call" and any("self.cc" in fmt(a) for a in S.args_of(n))]
     bad = []
     for n in derefs:
         lits = S.literals_at(n, exclude=("ui", "u"))
-        if not any(a[0] == "bool" and atom_of_expr(a[1]) == "present_accessible" and t is True for a, t in lits):
+        both = any(a[0] == "bool" and atom_of_expr(a[1]) == "present_accessible" and t is True for a, t in lits)
+        split = any(atomise(a, t) == ("present", True) for a, t in lits) and any(a[0] == "bool" and atom_of_expr(a[1]) == "accessible" and t is True for a, t in lits)
+        if not (both or split):
             bad.append(n.where())
     R.inst("R8.1", "deref-only-if-accessible", not bad and derefs, "%d uses of self.cc in strong_count, all under `record present & accessible`: %s" % (len(derefs), bad or "yes"), where=sc.span, cfg=cfg)
 
